@@ -668,6 +668,21 @@ def zoo(tier='quick'):
     p.post(restated_post)
     p.features.add('imports')
     Z.append(p)
+    # the roles restated: the residual supplier is given a rule afterwards, and a rule-based supplier is made the residual one
+    p = Plan('samezone_supplier_roles_restated')
+    economy(p, 'AA', 'XXD', firm='multi', free_xr=False)
+    economy(p, 'BB', 'XXD', gov='none', firm='multi', free_xr=False)
+
+    def roles_post(c):
+        mk = c['AA.GOOD']          # AA.BUS is the residual supplier so far (declared by the economy)
+        y = c['AA.HH'].GetVariableName('INC')
+        mk.AddSupplier(c['BB.BUS'], '0.3*{0}'.format(y))
+        mk.AddSupplier(c['AA.BUS'], '0.5*{0}'.format(y))
+        mk.AddSupplier(c['BB.BUS'])
+        c['BB.BUS'].AddMarket(mk)
+    p.post(roles_post)
+    p.features.add('imports')
+    Z.append(p)
     # money issued by a sector that keeps no balance sheet of its own (has_F=False), e.g. a mint
     p = single('sim_mm_issuer_without_ledger')
     p.decl('CA.MINT', lambda c: Sector(c['CA'], c.nm('MINT'), has_F=False), group='CA')
